@@ -553,6 +553,9 @@ fn mono_ns() -> i64 {
     }
 }
 
+pub fn vtime_busy_now() -> i64 {
+    VBUSY.load(Ordering::SeqCst)
+}
 pub fn vtime_busy(delta: i64) {
     let v = VBUSY.fetch_add(delta, Ordering::SeqCst) + delta;
     if v < 0 {
